@@ -320,13 +320,13 @@ example : (runW exSchema World.init
     committed table still has both rows -/
 example : ((stepW exSchema (runW exSchema World.init
       [.ext (.insert (row 1 (some 10) none none)), .ext (.insert (row 2 (some 20) none none)),
-       .fetch 0 [1] [], .sess (.delete 0), .flushOne 0 [], .sess (.create 0 (some [3]) [some 20, none, none] false)]) (.commit [])).2 = some .txnIntegrity) ∧
+       .fetch 0 [1] [], .sess (.delete 0), .flushOne 0 [] true, .sess (.create 0 (some [3]) [some 20, none, none] false)]) (.commit [])).2 = some .txnIntegrity) ∧
     ((stepW exSchema (runW exSchema World.init
       [.ext (.insert (row 1 (some 10) none none)), .ext (.insert (row 2 (some 20) none none)),
-       .fetch 0 [1] [], .sess (.delete 0), .flushOne 0 [], .sess (.create 0 (some [3]) [some 20, none, none] false)]) (.commit [])).1.committed.map (·.pk)) = [[1], [2]] ∧
+       .fetch 0 [1] [], .sess (.delete 0), .flushOne 0 [] true, .sess (.create 0 (some [3]) [some 20, none, none] false)]) (.commit [])).1.committed.map (·.pk)) = [[1], [2]] ∧
     (runW exSchema World.init
       [.ext (.insert (row 1 (some 10) none none)), .ext (.insert (row 2 (some 20) none none)),
-       .fetch 0 [1] [], .sess (.delete 0), .flushOne 0 []]).inTxn = true := by
+       .fetch 0 [1] [], .sess (.delete 0), .flushOne 0 [] true]).inTxn = true := by
   decide
 
 /-- the hypotheses of `C14_commit_loses_no_insert` are met by a session with two new objects, one with a generated id -/
